@@ -112,6 +112,23 @@ LocalJudge(e, kind) ==
       ELSE IF e.ht = 1 THEN "position_with_ref_not_within_one_bin"
       ELSE "drift:position_differs_from_model_no_truth"
 
+\* references that are not on the 2^20 grid: e.rn / e.rd and e.sn / e.sd degrees (whole degrees, zone boundaries k * 90 / ni ...;
+\* denominators <= 60).  Local is monotone in each reference coordinate, so when it gives the same answer for the grid points just
+\* below and just above the reference, every reference in between must decode to that answer; with a decision boundary in
+\* between nothing is demanded.  (One grid step is 45 / 2^17 degree.)
+GridLo(n, d) == FloorDiv(n * P17, 45 * d)
+GridHi(n, d) == 0 - FloorDiv(0 - n * P17, 45 * d)
+V_position_with_ref_frac(e) ==
+  LET f == e.frame
+      kind == e.kind
+      w1 == Local(kind, Fld(f), OE(f), GridLo(e.rn, e.rd), GridLo(e.sn, e.sd))
+      w2 == Local(kind, Fld(f), OE(f), GridHi(e.rn, e.rd), GridHi(e.sn, e.sd))
+      r == e.res
+  IN  IF r.t # "pos" THEN "position_with_ref_shape"
+      ELSE IF w1 # w2 THEN "ok"
+      ELSE IF PosMatchModTurn(r, w1, kind) THEN "ok"
+      ELSE "position_with_ref_off_grid_reference"
+
 V_airborne_position_with_ref(e) == LocalJudge(e, "air")
 V_surface_position_with_ref(e) == LocalJudge(e, "surf")
 \* surface pair decoded again with the receiver longitude within a few ulps of every point where the choice among the four
